@@ -54,7 +54,7 @@ case("chars-unicode-digits-bare-numerify", "C05", I, 're.fullmatch(r"[A-Z]{2}[0-
 # ---- C06 -----------------------------------------------------------------------------------------------------
 case("es-weights-swapped", "C06", "schwifty/checksum/spain.py", "weights = [1, 2, 4, 8, 5, 10, 9, 7, 3, 6]", "weights = [1, 2, 4, 8, 5, 10, 9, 7, 6, 3]", V, "R06-table")
 case("fr-letter-map", "C06", "schwifty/checksum/france.py", '"S": "2",', '"S": "1",', V, "R06-table")
-case("pl-ten", "C06,C09", "schwifty/checksum/poland.py", "digit = digit if digit == 0 else 10 - digit", "digit = 10 - digit", V)
+case("pl-ten", "C06", "schwifty/checksum/poland.py", "digit = digit if digit == 0 else 10 - digit", "digit = 10 - digit", V)
 case("tn-unregistered", "C06", "schwifty/checksum/iso7064_mod97_10_variant.py", '@checksum.register("MR", "TN")', '@checksum.register("MR")', V, "R06-reg")
 case("fi-never-rejects", "C06", B, "if not algo.validate(components, self.national_checksum_digits):",
      'if not algo.validate(components, self.national_checksum_digits) and self.country_code != "FI":', V, "R06-true")
